@@ -154,15 +154,18 @@ theorem admits_reverse {σ : String → Nat} : ∀ {s : Shape} {l : List Int}, A
 theorem hasUnknown_reverse (s : Shape) : hasUnknown s.reverse = hasUnknown s := by
   simp only [hasUnknown, List.any_reverse]
 
-/-- what `dimOk2` means for concrete values when the Expand-output dim is not unnamed -/
+theorem semEq_iff {d1 d2 : Dim} : semEq d1 d2 = true ↔ d1.isUnknown = false ∧ d2.isUnknown = false ∧ d1 = d2 := by
+  simp only [semEq, Bool.and_eq_true, Bool.not_eq_true', decide_eq_true_eq, and_assoc]
+
+/-- what `dimOk2` means for concrete values (`_same_dim` never equates unnamed dims) -/
 theorem dimOk2_sem {σ : String → Nat} {ed xd yd : Dim} {v a b : Int}
-    (hok : dimOk2 ed xd yd = true) (hu : ed.isUnknown = false)
+    (hok : dimOk2 ed xd yd = true)
     (he : ed.Admits σ v) (hx : xd.Admits σ a) (hy : yd.Admits σ b) : v = 1 ∨ a = v ∨ b = v := by
   simp only [dimOk2, Bool.or_eq_true, decide_eq_true_eq] at hok
   rcases hok with (h | h) | h
   · subst h; simp only [Dim.Admits] at he; exact Or.inl he.symm
-  · subst h; exact Or.inr (Or.inl (Dim.admits_det hu hx he))
-  · subst h; exact Or.inr (Or.inr (Dim.admits_det hu hy he))
+  · obtain ⟨_, hu, rfl⟩ := semEq_iff.mp h; exact Or.inr (Or.inl (Dim.admits_det hu hx he))
+  · obtain ⟨_, hu, rfl⟩ := semEq_iff.mp h; exact Or.inr (Or.inr (Dim.admits_det hu hy he))
 
 /-- head identity of strategy 2: `v` is the expanded value of `a` (so `a = v ∨ a = 1`). -/
 theorem bdim_expanded {a v b : Int} (hav : a = v ∨ a = 1) (h : v = 1 ∨ a = v ∨ b = v) :
@@ -179,14 +182,14 @@ theorem bdim_expanded {a v b : Int} (hav : a = v ∨ a = 1) (h : v = 1 ∨ a = v
 annotation without unnamed dims. -/
 theorem s2_core {σ : String → Nat} : ∀ (m n : Nat) (E x y : Shape) (lx le lE ly : List Int) (k : Nat),
     m = max lx.length le.length → m ≤ n → bcastN m lx le = some lE →
-    suffRev E x y k = none → hasUnknown E = false → Admits σ E lE → Admits σ x lx → Admits σ y ly →
+    suffRev E x y k = none → Admits σ E lE → Admits σ x lx → Admits σ y ly →
     bcastN n lE ly = bcastN n lx ly
-  | 0, n, E, x, y, lx, le, lE, ly, k, hm, _, hb, _, _, _, _, _ => by
+  | 0, n, E, x, y, lx, le, lE, ly, k, hm, _, hb, _, _, _, _ => by
     have h1 : lx = [] := List.eq_nil_of_length_eq_zero (by omega)
     simp only [bcastN, Option.some.injEq] at hb
     subst h1; subst hb; rfl
-  | m + 1, 0, _, _, _, _, _, _, _, _, _, hmn, _, _, _, _, _, _ => by omega
-  | m + 1, n + 1, E, x, y, lx, le, lE, ly, k, hm, hmn, hb, hs, hu, hE, hx, hy => by
+  | m + 1, 0, _, _, _, _, _, _, _, _, _, hmn, _, _, _, _, _ => by omega
+  | m + 1, n + 1, E, x, y, lx, le, lE, ly, k, hm, hmn, hb, hs, hE, hx, hy => by
     simp only [bcastN] at hb
     cases hd : bdim (lx.headD 1) (le.headD 1) with
     | none => simp only [hd, Option.bind_none] at hb; cases hb
@@ -197,11 +200,10 @@ theorem s2_core {σ : String → Nat} : ∀ (m n : Nat) (E x y : Shape) (lx le l
       | [], hE => simp only [Admits] at hE
       | Ed :: Es, hE =>
         simp only [Admits] at hE
-        simp only [hasUnknown, List.any_cons, Bool.or_eq_false_iff] at hu
         obtain ⟨hxh, hxt⟩ := admits_hd_tl hx
         obtain ⟨hyh, hyt⟩ := admits_hd_tl hy
         obtain ⟨hok, htl⟩ := suffRev_cons hs
-        have hsem := dimOk2_sem hok hu.1 hE.1 hxh hyh
+        have hsem := dimOk2_sem hok hE.1 hxh hyh
         have hav : lx.headD 1 = d ∨ lx.headD 1 = 1 := by
           rcases bdim_some_cases hd with h | h | h
           · exact Or.inr h.1
@@ -210,7 +212,7 @@ theorem s2_core {σ : String → Nat} : ∀ (m n : Nat) (E x y : Shape) (lx le l
         have hlen : m = max lx.tail.length le.tail.length := by
           simp only [List.length_tail]; omega
         have ih := s2_core (σ := σ) m n Es x.tail y.tail lx.tail le.tail t ly.tail (k + 1) hlen (by omega) ht htl
-          (by simpa only [hasUnknown] using hu.2) hE.2 hxt hyt
+          hE.2 hxt hyt
         simp only [bcastN, List.headD_cons, List.tail_cons, bdim_expanded hav hsem, ih]
 
 /-- Symbolic broadcast is a truthful annotation of the numeric broadcast. -/
@@ -226,9 +228,10 @@ theorem bcastDim_sound {σ : String → Nat} {d1 d2 c : Dim} {a b v : Int}
     · simp only [e1, e2, if_true, if_false, Option.some.injEq] at h
       subst h; subst e2; simp only [Dim.Admits] at h2; subst h2
       rw [bdim_one_right] at hv; simp only [Option.some.injEq] at hv; subst hv; exact h1
-    · by_cases e3 : d1 = d2
+    · by_cases e3 : semEq d1 d2 = true
       · simp only [e1, e2, e3, if_true, if_false, Option.some.injEq] at h
-        subst h; subst e3
+        obtain ⟨_, _, e3'⟩ := semEq_iff.mp e3
+        subst h; subst e3'
         rcases bdim_some_cases hv with h | h | h
         · rw [h.2]; exact h2
         · rw [h.2]; exact h1
@@ -244,9 +247,10 @@ theorem bcastDim_defined {σ : String → Nat} {d1 d2 c : Dim} {a b : Int}
   · subst e1; simp only [Dim.Admits] at h1; subst h1; exact ⟨b, bdim_one_left b⟩
   · by_cases e2 : d2 = .known 1
     · subst e2; simp only [Dim.Admits] at h2; subst h2; exact ⟨a, bdim_one_right a⟩
-    · by_cases e3 : d1 = d2
+    · by_cases e3 : semEq d1 d2 = true
       · simp only [e1, e2, e3, if_true, if_false, Option.some.injEq] at h
-        subst h; subst e3
+        obtain ⟨_, _, e3'⟩ := semEq_iff.mp e3
+        subst h; subst e3'
         have := Dim.admits_det hc h1 h2
         subst this; exact ⟨a, bdim_self a⟩
       · simp only [e1, e2, e3, if_false] at h; cases h
@@ -282,5 +286,19 @@ theorem bcastShapeN_sound {σ : String → Nat} : ∀ (n : Nat) (x y c : Shape) 
         obtain ⟨v, hv⟩ := bcastDim_defined hd hu.1 hxh hyh
         obtain ⟨lt, hlt⟩ := ih2 (by simpa only [hasUnknown] using hu.2)
         exact ⟨v :: lt, by simp only [bcastN, hv, Option.bind_some, hlt, Option.map_some]⟩
+
+/-- elementwise `_same_dim` on two shapes of equal length: they are the same shape and contain no unnamed dim -/
+theorem zipWith_semEq_all : ∀ (c out : Shape), c.length = out.length → (List.zipWith semEq c out).all id = true →
+    c = out ∧ hasUnknown out = false
+  | [], [], _, _ => ⟨rfl, rfl⟩
+  | [], _ :: _, h, _ => by simp only [List.length_nil, List.length_cons] at h; omega
+  | _ :: _, [], h, _ => by simp only [List.length_nil, List.length_cons] at h; omega
+  | d :: c, e :: out, hl, h => by
+    simp only [List.zipWith_cons_cons, List.all_cons, id, Bool.and_eq_true] at h
+    obtain ⟨_, hu, rfl⟩ := semEq_iff.mp h.1
+    obtain ⟨rfl, hu'⟩ := zipWith_semEq_all c out (by simpa using hl) h.2
+    refine ⟨rfl, ?_⟩
+    simp only [hasUnknown, List.any_cons, hu, Bool.false_or]
+    simpa only [hasUnknown] using hu'
 
 end OV.C09
